@@ -1,0 +1,116 @@
+// Copyright (C) 2026 Storj Labs, Inc.
+// See LICENSE for copying information.
+
+//go:build verif
+
+package drpcpool
+
+// Machine-checked contracts for this package (read by /verif/govc; comment-only).
+//
+// linked(l, e): ghost membership of entry e in intrusive list l (set by appendEntry, cleared by
+// removeEntry). stopped(e): this goroutine's last ent.exp.Stop() returned true, i.e. it owns the
+// entry (the expiry callback will never run for it).
+// NOT proved here: the pointer-level well-formedness of the lists (count == number of linked
+// entries, head/tail/next/prev consistent); "count > 0 implies head != nil" is a stated assumption.
+
+//@ ghostmap linked(l ref, e ref) bool
+//@ ghostmap stopped(e ref) bool
+
+//@ axiom closedCh != nil
+
+//@ monitor Pool.mu
+//@   protects entries, order
+//@   invariant [cap]   self.opts.Capacity > 0 ==> self.order.count <= self.opts.Capacity
+//@   invariant [count] self.order.count >= 0
+//@   invariant [map]   self.entries != nil
+
+// connections are user objects: Close may do anything to user state but not to the pool
+//@ extern V.Close(recv) (err error)
+
+//@ func (*Pool).log
+//@   inline
+//@ func closed
+//@   inline
+
+// closeEntry: the pool closes the connection itself exactly when it owns the entry (no expiry timer,
+// or the timer was stopped before it fired); otherwise the expiry callback closes it.
+//@ func (*Pool).closeEntry
+//@   props C15
+//@   requires ent != nil && held(p.mu) && ent.val != nil
+//@   ghost entry stop = true
+//@   ghost after:(*Timer).Stop stop = ret
+//@   check [C15.close-iff-owned] (eventCount("invoke:Close") == 1) == (ent.exp == nil || stop)
+//@   check [C15.close-at-most-once] eventCount("invoke:Close") <= 1
+
+// Take: a connection is handed out only after it was unlinked from both lists, only if it is not
+// blocked, not closed, and not chosen for expiry (its timer, if any, was stopped in time).
+//@ func (*Pool).Take
+//@   props C15
+//@   modifies *
+//@   assumes "list well-formedness is not proved: entries reached through head/next are non-nil entries of this key's list"
+//@   loop 1 invariant [p] p == p0 && key == key0 && local != nil && p.entries != nil && p.order.count >= 0 && (p.opts.Capacity > 0 ==> p.order.count <= p.opts.Capacity)
+//@   ghost entry lastStop = true
+//@   ghost after:(*Timer).Stop lastStop = ret
+//@   ghost entry unl = 0
+//@   ghost loop:1 unl = 0
+//@   ghost after:(*list).removeEntry unl = unl + 1
+//@   ghost entry cur = nil
+//@   ghost call:(*list).removeEntry#1 cur = arg1
+//@   site Unblocked assume [cached-nonnil] arg0 != nil
+//@   site (*list).removeEntry assume [wf-count] arg0.count > 0
+//@   site (*list).removeEntry#1 assert [C15.unlink-local]  arg0 == local && arg1 == ent && funcIs(arg2, "localList")
+//@   site (*list).removeEntry#2 assert [C15.unlink-global] arg1 == ent && funcIs(arg2, "globalList")
+//@   site (*list).removeEntry#1 assert [C15.unlink-only-owned] ent.exp == nil
+//@   check [C15.handed-out] result1 ==> unl == 2 && cur != nil && (cur.exp == nil || lastStop) && result0 == cur.val
+
+// Put: never more than the configured number of entries (count fields); every eviction closes or
+// hands the victim to its timer and unlinks it from both lists; the new entry is appended to the list
+// that is registered for its key.
+//@ func (*Pool).Put
+//@   props C15
+//@   requires val != nil
+//@   modifies *
+//@   assumes "list well-formedness is not proved: count > 0 implies head != nil for the lists used in the eviction loops"
+//@   loop 1 invariant [l] p == p0 && key == key0 && val == val0 && local != nil && p.entries != nil && p.entries[key] == local && p.order.count >= 0 && p.opts.Capacity >= 0 && p.opts.KeyCapacity >= 0
+//@   loop 2 invariant [l] p == p0 && key == key0 && val == val0 && local != nil && p.entries != nil && p.order.count >= 0 && p.opts.Capacity >= 0 && p.opts.KeyCapacity >= 0
+//@   loop 2 invariant [keycap] p.opts.KeyCapacity > 0 ==> local.count < p.opts.KeyCapacity
+//@   loop 2 assume [wf-head] p.order.count > 0 ==> p.order.head != nil
+//@   loop 2 assume [machine] p.order.count < 4611686018427387904
+//@   site (*Pool).closeEntry assume [wf-head] arg1 != nil && arg1.val != nil
+//@   site (*list).removeEntry assume [wf-list] arg0 != nil && arg0.count > 0
+//@   site (*list).removeEntry#1 assert [C15.evict-local]  funcIs(arg2, "localList")
+//@   site (*list).removeEntry#2 assert [C15.evict-global] funcIs(arg2, "globalList") && arg1 == ent
+//@   site (*list).removeEntry#3 assert [C15.evict-local]  funcIs(arg2, "localList")
+//@   site (*list).removeEntry#4 assert [C15.evict-global] funcIs(arg2, "globalList")
+//@   site (*list).appendEntry#1 assert [C15.coherent-append] p.entries[key] == arg0 && arg0 == local && funcIs(arg2, "localList")
+//@   site (*list).appendEntry#1 assert [C15.key-capacity]    p.opts.KeyCapacity > 0 ==> arg0.count < p.opts.KeyCapacity
+//@   site (*list).appendEntry#2 assert [C15.global-append]   funcIs(arg2, "globalList") && arg1 == ent
+//@   site (*list).appendEntry#2 assert [C15.capacity]        p.opts.Capacity > 0 ==> p.order.count < p.opts.Capacity
+
+// removeEntry (the expiry callback's critical section) must only unlink an entry that is still linked.
+//@ func (*Pool).removeEntry
+//@   props C15
+//@   requires ent != nil
+//@   modifies *
+//@   site (*list).removeEntry assume [wf-count] arg0.count > 0
+//@   site (*list).removeEntry#1 assert [C15.callback-unlinks-linked] linked(arg0, arg1)
+
+// Close: every cached entry is closed or left to its timer, then the pool is emptied.
+//@ func (*Pool).Close
+//@   props C15 C12
+//@   modifies *
+//@   loop 1 invariant [p] p == p0
+//@   site (*Pool).closeEntry assume [cached-nonnil] arg1.val != nil
+//@   check [C15.emptied] p.order.count == 0 && p.order.head == nil
+
+// poolConn.Close may be called more than once by users of the connection.
+//@ func (*poolConn).Close
+//@   props C15 C19
+//@   modifies *
+
+// the expiry callback: closes the connection and unlinks the entry under the pool lock
+//@ func (*Pool).Put$1
+//@   props C15
+//@   requires val != nil && p != nil && ent != nil
+//@   modifies *
+//@   check [C15.callback] eventCount("invoke:Close") == 1 && eventCount("call:(*Pool).removeEntry") == 1 && eventAfterLast("invoke:Close", "call:(*Pool).removeEntry")
